@@ -153,6 +153,8 @@ class ActorMain:
             return {"ok": True}
         if op == "add":
             return self.add(cmd)
+        if op in ("filter", "list_modules", "add") and self.store is None:
+            return {"err": "NoStore: the store could not be (re)opened earlier"}
         if op == "filter":
             rows = self.store.filter(cmd["m"], cmd.get("p"), cmd["n"]) if "n" in cmd else self.store.filter(cmd["m"], cmd.get("p"))
             return {"ok": True, "rows": [row_tuple(r) for r in rows]}
@@ -178,6 +180,7 @@ class ActorMain:
         if op == "image":
             return self.image(cmd["dst"])
         if op == "exit":
+            self.close()   # a clean shutdown (checkpoints a write-ahead log, if the store uses one)
             self.send({"ok": True})
             os._exit(0)
         return {"err": "unknown op"}
